@@ -27,18 +27,18 @@ twin target that commits the same insertions directly must end with the same
 pack-names and the same accept/refuse as suspend → reopen → resume → commit;
 tokens returned by suspend are 32 lower-case hex digits and name files in upload/.
 
-Findings on the unchanged code (reported with a family computed from the failing script;
-see oracle()):
+Finding on the unchanged code (committed known finding; family computed from the failing
+script, see oracle()):
  * `knit-missing-compression-parent-survives-abort` (knit pack formats): abort_write_group does
    not reset the index's missing-compression-parent set, so the same Repository object refuses
    every later complete write group.  The model carries this bookkeeping (`Repo.stale`), Props
    proves `stale_after_abort_witness`; the positive statements needing a clean object are
    `…_partial`.
- * `refused-commit-after-finishing-earlier-resumed-pack` (knit pack formats, >= 2 resumed packs):
-   the refusal comes from a later pack's finish(); earlier resumed packs are already moved out of
-   upload/, abort_write_group then raises NoSuchFile.  The model describes the refusal as the
-   no-op the property demands (`refused_commit_noop`); the prefixes after the event are checked by
-   the oracle only.
+Former finding `refused-commit-after-finishing-earlier-resumed-pack` (a refusal raised by a later
+resumed pack's finish() left earlier packs moved out of upload/, abort raised NoSuchFile): fixed in
+/repo 0430fe1 (all resumed packs are validated before any is finished).  The refusal is now the
+no-op the model and `refused_commit_noop` describe; every prefix is compared with the model again;
+corpus/C06/knit-partial-resumed-finish.json is the regression input (mutant R1 = fix reverted).
 
 Mutants (scratch worktree /var/tmp/wt-C06; "caught" = unclassified oracle violation unless noted):
  M1  _abort_write_group: new pack finished+allocated+names saved instead of aborted   -> caught
@@ -55,6 +55,8 @@ Mutants (scratch worktree /var/tmp/wt-C06; "caught" = unclassified oracle violat
  M9  _abort_write_group: resumed packs not aborted (left in upload/)                   -> caught by T2
  M10 _check_new_inventories: missing text keys ignored                                 -> caught
  M11 _suspend_write_group returns only the first token                                 -> caught
+ R1  fix 0430fe1 reverted (resumed packs not validated before finishing)   -> caught: plain VIOLATION
+     (refused commit removed a suspended pack from upload/; abort raised NoSuchFile) + T2
  H1  harmless: token list comprehension rewritten as a loop                            -> clean
 """
 import os
@@ -645,14 +647,12 @@ def _worker(item):
 # --------------------------------------------------------------------------
 
 FAMILY_STALE = "knit-missing-compression-parent-survives-abort"
-FAMILY_PARTIAL = "refused-commit-after-finishing-earlier-resumed-pack"
 
 
 def oracle(ctx, case, ops, steps, issued, cps=None, chk=True, needs=None, alltexts=None):
     bad = []
     aborted_incomplete = False    # this Repository object aborted a group with a missing compression parent
-    partial = False               # a refused commit already moved a resumed pack out of upload/
-    first_classified = None
+    partial = False
     opened = None        # observation when the current group was opened
     prev = None
     for i, (op, (res, obs)) in enumerate(zip(ops, steps)):
@@ -668,17 +668,17 @@ def oracle(ctx, case, ops, steps, issued, cps=None, chk=True, needs=None, alltex
         if k == "C" and res == "E:Check" and prev is not None and prev["upload_names"] != obs["upload_names"]:
             # family: knit pack format, >= 2 resumed packs, the refusal comes from a later pack's
             # reference check after an earlier resumed pack was already finished
-            fam = FAMILY_PARTIAL if (not chk and prev["resumed_n"] >= 2) else None
-            partial = fam is not None
+            fam = None      # fixed in /repo 0430fe1: a plain violation if it returns
+            partial = False
             bad.append(("op %d commit: refused (BzrCheckError) but suspended packs %r disappeared from upload/ "
                         "(now %r)" % (i, sorted(set(prev["upload_names"]) - set(obs["upload_names"])),
                                       obs["upload_names"]), fam))
         if k == "A" and not (res == "ok" or res == "E:NotInWG"):
-            bad.append(("op %d abort_write_group raised %s" % (i, res), FAMILY_PARTIAL if partial else None))
+            bad.append(("op %d abort_write_group raised %s" % (i, res), None))
         if partial and k in ("S", "C", "I", "U", "R") and res.startswith("E:") and res not in (
                 "E:Check", "E:NotInWG", "E:AlreadyInWG", "E:Unresumable", "E:Assertion", "E:AttributeError"):
             bad.append(("op %d %r raised %s on the Repository object left by the refused commit" % (i, op, res),
-                        FAMILY_PARTIAL))
+                        None))
         if cps is not None and not chk and prev is not None:
             own = set(prev["pack_union"]) | set(prev["group"])
             lacking = [x for x in prev["group"] if x in cps and cps[x] not in own]
@@ -730,13 +730,10 @@ def oracle(ctx, case, ops, steps, issued, cps=None, chk=True, needs=None, alltex
     for b in bad:
         msg, fam = b if isinstance(b, tuple) else (b, None)
         out.append(dict(what=msg, family=fam))
-        if fam == FAMILY_PARTIAL and first_classified is None:
-            first_classified = int(msg.split()[1])
         if fam in fams or (fam is None and len(fams) >= 3):
             continue
         fams.add(fam)
         ctx.violation(case, msg, family=fam)
-    oracle.cut = first_classified
     return out
 
 
@@ -779,14 +776,7 @@ def run(ctx, n=None):
         if last["upload_junk"] and not last["in_wg"]:
             ctx.count("scripts_leaving_unnamed_files_in_upload")
         oracle(ctx, case, ops, res["steps"], res["issued"], res["cps"], res["chk"], res["needs"], res["alltexts"])
-        cut = oracle.cut
-        if cut is not None:
-            # the object and upload/ are in the state left by the classified defect: the model describes
-            # the refusal as a no-op, so the remaining prefixes are reported by the oracle only
-            ctx.count("t2_prefixes_skipped_after_classified_finding", len(ops) - cut)
         for j, (l, im) in enumerate(zip(res["lines"], res["impl"])):
-            if cut is not None and j >= cut:
-                break
             cases.append(dict(case, prefix=j + 1))
             lines.append(l)
             impls.append(im)
